@@ -326,6 +326,10 @@ def run_sequence(ctx, case) -> None:
 
 
 def run(ctx) -> None:
+    if ctx.tier == "thorough" and ctx.shard == ctx.nshards - 1:
+        # the repository's own tests as one more workload for the contracts (vmon/contracts.py)
+        from ..contracts_suite import run_repo_tests
+        run_repo_tests(ctx, ['incomplete_cooperative/tests/test_game.py', 'incomplete_cooperative/tests/test_normalize.py', 'incomplete_cooperative/tests/test_exploitability.py'], 'game')
     rng = ctx.rng
     while not ctx.out_of_time(1.0):
         n = rng.choice([1, 2, 2, 3, 3, 4, 4, 5])
@@ -333,4 +337,8 @@ def run(ctx) -> None:
 
 
 def replay(ctx, case) -> None:
+    if case.get("kind") == "repo-tests":
+        from ..contracts_suite import run_repo_tests
+        run_repo_tests(ctx, case["files"], case["contracts"])
+        return
     run_sequence(ctx, case)
